@@ -1,6 +1,7 @@
 import CnbVerif.Props.C03
 #print axioms CnbVerif.C03.layout
 #print axioms CnbVerif.C03.layout_is_spec_files
+#print axioms CnbVerif.C03.oracle_files_are_spec_files
 #print axioms CnbVerif.C03.file_names_are_spec_names
 #print axioms CnbVerif.C03.overwrite
 #print axioms CnbVerif.C03.second_write_erases_first
